@@ -37,6 +37,7 @@ func writeChunk(c IndexChunk, ss *selfSeed, f *os.File, blocksize uint64, s Stor
 		}
 		stats.addBytesCopied(copied)
 		stats.addBytesCloned(cloned)
+		verifAsm("wc.self", -1, c.Start, c.Size, 0, "")
 		return nil
 	}
 
@@ -49,6 +50,7 @@ func writeChunk(c IndexChunk, ss *selfSeed, f *os.File, blocksize uint64, s Stor
 			return err
 		}
 		sum := Digest.Sum(b)
+		verifAsm("wc.inplace", -1, c.Start, verifAsmOK(sum == c.ID), 0, "")
 		if sum == c.ID {
 			// Record we kept this chunk in the file (when using in-place extract)
 			stats.incChunksInPlace()
@@ -74,6 +76,7 @@ func writeChunk(c IndexChunk, ss *selfSeed, f *os.File, blocksize uint64, s Stor
 	if _, err = f.WriteAt(b, int64(c.Start)); err != nil {
 		return err
 	}
+	verifAsm("wc.store", -1, c.Start, uint64(len(b)), 0, "")
 	return nil
 }
 
@@ -164,8 +167,11 @@ func AssembleFile(ctx context.Context, name string, idx Index, s Store, seeds []
 		}
 		defer f.Close()
 		g.Go(func() error {
+			defer verifAsm("exit", i, 0, 0, 0, "")
+			verifAsm("start", i, 0, 0, 0, "")
 			for job := range in {
 				verifYield("AssembleFile.job")
+				verifAsmJob(i, job.segment, job.source)
 				pb.Add(job.segment.lengthChunks())
 				if job.source != nil {
 					// If we have a seedSegment we expect 1 or more chunks between
@@ -189,6 +195,7 @@ func AssembleFile(ctx context.Context, name string, idx Index, s Store, seeds []
 							return err
 						}
 						sum := Digest.Sum(b)
+						verifAsm("rehash", i, c.Start, verifAsmOK(sum == c.ID), 0, "")
 						if sum != c.ID {
 							if options.InvalidSeedAction == InvalidSeedActionRegenerate {
 								// Try harder before giving up and aborting
@@ -207,6 +214,7 @@ func AssembleFile(ctx context.Context, name string, idx Index, s Store, seeds []
 					// Record this segment's been written in the self-seed to make it
 					// available going forward
 					ss.add(job.segment)
+					verifAsm("done", i, uint64(job.segment.first), uint64(job.segment.last), 0, "")
 					continue
 				}
 
@@ -227,6 +235,7 @@ func AssembleFile(ctx context.Context, name string, idx Index, s Store, seeds []
 				// self-seed, we still need to record it as being written, otherwise
 				// the self-seed position pointer doesn't advance as we expect.
 				ss.add(job.segment)
+				verifAsm("done", i, uint64(job.segment.first), uint64(job.segment.last), 0, "")
 			}
 			return nil
 		})
@@ -276,6 +285,7 @@ func AssembleFile(ctx context.Context, name string, idx Index, s Store, seeds []
 loop:
 	for _, segment := range plan {
 		verifYield("AssembleFile.feed")
+		verifAsm("feed", -1, uint64(segment.indexSegment.first), uint64(segment.indexSegment.last), 0, "")
 		select {
 		case <-ctx.Done():
 			interrupted = true
@@ -284,6 +294,7 @@ loop:
 		}
 	}
 	close(in)
+	verifAsm("closed", -1, verifAsmOK(interrupted), 0, 0, "")
 
 	return stats, waitOrInterrupted(g, interrupted)
 }
